@@ -90,10 +90,12 @@ def main():
     ap.add_argument("--jobs", type=int, default=6)
     ap.add_argument("--tests", action="store_true")
     ap.add_argument("--json")
+    ap.add_argument("--nobuild", action="store_true")
     a = ap.parse_args()
-    b = subprocess.run(["go", "build", "-o", os.path.join(VERIF, "bin", "bscheck"), "."], cwd=os.path.join(VERIF, "checker"), env=env(), capture_output=True, text=True)
-    if b.returncode != 0:
-        print("checker build failed:\n" + b.stderr); sys.exit(2)
+    if not a.nobuild:
+        b = subprocess.run(["go", "build", "-o", os.path.join(VERIF, "bin", "bscheck"), "."], cwd=os.path.join(VERIF, "checker"), env=env(), capture_output=True, text=True)
+        if b.returncode != 0:
+            print("checker build failed:\n" + b.stderr); sys.exit(2)
     vs = load()
     def want(v):
         props = v["property"] if isinstance(v["property"], list) else [v["property"]]
